@@ -37,12 +37,15 @@ def run(ctx):
         for k in range(q):
             t.raw(pure.ev_dec(uni, g, G.Base.scalarmult(k).to_bytes()))
         traces.append(t.to_json())
-    for ps, g in [("PEd25519", "Ed25519"), ("P1024", "I1024"), ("P2048", "I2048"), ("P3072", "I3072")]:
-        uni.paramset(ps)
+    # ... and custom groups of unusual shape (core.zoo): p or q exactly filling their bytes, one-byte q, 66/75-byte elements
+    zl = ["q64full", "m64", "m65", "q251", "m521", "s600", "s136", "s72a"]
+    for ps, g in [("PEd25519", "Ed25519"), ("P1024", "I1024"), ("P2048", "I2048"), ("P3072", "I3072")] + \
+            [("P" + z, z) for z in (zl if thorough else zl[:5])]:
+        uni.paramset(ps, grp=g) if g in zoo() else uni.paramset(ps)
         G = uni.group(g)
         q = G.order()
         t = Trace("scalar-codec/" + g, uni)
-        for k in [0, 1, 2, 255, 256, q - 1, q - 2, (q - 1) // 2, 2 ** 100] + [ctx.rng.randrange(q) for _ in range(20 if thorough else 3)]:
+        for k in [k for k in (0, 1, 2, 255, 256, q - 1, q - 2, (q - 1) // 2, 2 ** 100) if k < q] + [ctx.rng.randrange(q) for _ in range(20 if thorough else 3)]:
             t.raw(pure.ev_s_codec(uni, g, k))
         for k in [1, 2, q - 1] + [ctx.rng.randrange(1, q) for _ in range(6 if thorough else 1)]:
             t.raw(pure.ev_dec(uni, g, G.Base.scalarmult(k).to_bytes()))
